@@ -327,7 +327,12 @@ class Interp:
 
         async def run() -> None:
             for i in range(depth):
-                c = Context(ctxs[-1]) if (ctxs and case.get("explicit_parent")) else Context()
+                cls = Context
+                if case.get("falsy_ctx") and i % 2 == 0:
+                    from harness.engines.ctxstack import empty_context_class
+
+                    cls = empty_context_class()  # (a context whose truth value is False is a context like any other)
+                c = cls(ctxs[-1]) if (ctxs and case.get("explicit_parent")) else cls()
                 await c.__aenter__()
                 ctxs.append(c)
             if case.get("leak_in_task"):
@@ -450,7 +455,7 @@ def cases(draw: Any, tier: str) -> dict:
     if d.pct(12):
         depth = d.int(2, 4)
         return {"type": "corrupt", "backend": draw(BACKEND), "sched_seed": 0, "depth": depth, "leave": d.int(0, depth - 2),
-                "explicit_parent": d.bool(), "outer_root": d.bool(), "leak_in_task": d.pct(35)}
+                "explicit_parent": d.bool(), "outer_root": d.bool(), "leak_in_task": d.pct(35), "falsy_ctx": d.pct(25)}
     hi = 3 if tier == "quick" else 5
     c: dict[str, Any] = {"type": "life", "backend": draw(BACKEND), "sched_seed": draw(SEED), "kind": d.pick(["root", "nested"]),
                          "exit": d.pick(EXITS)}
